@@ -253,13 +253,16 @@ func (w *Worker) stringerMethod(t types.Type) *ssa.Function {
 // pendingFmt: formatting that needs Stringer calls is done by running those methods first.
 // To keep the executor simple, String() methods are executed eagerly through a nested run of
 // the worker on a scratch frame stack.
-func (w *Worker) callSync(st *State, fn *ssa.Function, args []Value) Value {
+func (w *Worker) callSync(st *State, fn *ssa.Function, args []Value, bindings ...Value) Value {
 	saved := st.frames
 	var result Value
 	done := false
 	sentinel := &Frame{fn: fn, blk: fn.Blocks[0], env: map[ssa.Value]Value{}, visits: map[int]int{}}
 	for i, p := range fn.Params {
 		sentinel.env[p] = args[i]
+	}
+	for i, fv := range fn.FreeVars {
+		sentinel.env[fv] = bindings[i]
 	}
 	st.frames = []*Frame{sentinel}
 	func() {
@@ -400,6 +403,20 @@ func (w *Worker) intrinsic(st *State, f *Frame, x ssa.Value, callee *ssa.Functio
 	if strings.HasPrefix(name, "verif") && w.inRepo(callee) && len(callee.Blocks) == 0 {
 		w.harnessIntrinsic(st, f, x, name, args)
 		return true
+	}
+	if st.opts["summarise-transliteration"] && full == gCfg.Module+"/utils.ConvertBanglaDigitsToASCII" {
+		// S-translit (DESIGN §2.5): position-wise digit map, justified by VH_translit1/VH_translitN
+		// which execute the real function; used only where its per-character forks (2^n) would
+		// make long literals unreachable
+		if rs, ok := args[0].(StrV).runeLevel(); ok {
+			out := make([]Term, len(rs))
+			for i, r := range rs {
+				isB := mkAnd(bvCmp("bvsge", r, mkBV(0x9E6, 32)), bvCmp("bvsle", r, mkBV(0x9EF, 32)))
+				out[i] = mkIte(isB, bvBin("bvsub", r, mkBV(0x9E6-0x30, 32), true), r)
+			}
+			set(strRunes(out))
+			return true
+		}
 	}
 	switch full {
 	case "fmt.Println", "fmt.Print":
@@ -558,6 +575,96 @@ func (w *Worker) intrinsic(st *State, f *Frame, x ssa.Value, callee *ssa.Functio
 			addr = mkIte(u.isKind(k), mkBV(a, 64), addr)
 		}
 		set(addr)
+	case "sort.Slice", "sort.SliceStable":
+		// modelled as a stable insertion sort driven by the caller's less function (which must
+		// decide concretely); sort.Slice's instability is not modelled, but the order in which
+		// the elements arrive (e.g. from a map range) is whatever the caller produced
+		u := args[0].(*Union)
+		k, okk := u.constKind()
+		if !okk {
+			panic(engineErr("sort.Slice on a symbolic value"))
+		}
+		sl, isSl := u.P[k].(SliceV)
+		if !isSl {
+			panic(engineErr("sort.Slice on a non-slice"))
+		}
+		less := args[1].(FuncV)
+		elems := st.sliceElems(sl)
+		for i := 1; i < len(elems); i++ {
+			for j := i; j > 0; j-- {
+				r := w.callSync(st, less.fn, []Value{mkBV(uint64(j), 64), mkBV(uint64(j-1), 64)}, less.bindings...)
+				b, okb := r.(Term).boolVal()
+				if !okb {
+					panic(engineErr("sort.Slice with a symbolic comparison"))
+				}
+				if !b {
+					break
+				}
+				elems[j], elems[j-1] = elems[j-1], elems[j]
+			}
+		}
+	case "strings.ToLower", "strings.ToUpper":
+		c, ok := args[0].(StrV).concrete()
+		if !ok {
+			panic(engineErr(full + " on symbolic text"))
+		}
+		if full == "strings.ToLower" {
+			set(strLit(strings.ToLower(c)))
+		} else {
+			set(strLit(strings.ToUpper(c)))
+		}
+	case "strconv.FormatInt":
+		base, okb := args[1].(Term).intVal()
+		if !okb || base != 10 {
+			panic(engineErr("strconv.FormatInt with a base other than 10"))
+		}
+		set(w.fmtValue(st, types.Typ[types.Int64], args[0], 'd', 0))
+	case "strconv.Itoa":
+		set(w.fmtValue(st, types.Typ[types.Int], args[0], 'd', 0))
+	case "strconv.FormatFloat":
+		panic(engineErr("strconv.FormatFloat is not modelled"))
+	case "math.Copysign":
+		x, y := args[0].(Term), args[1].(Term)
+		if xv, ok := x.fpVal(); ok {
+			if yv, ok2 := y.fpVal(); ok2 {
+				set(mkFP(math.Copysign(xv, yv)))
+				break
+			}
+		}
+		// the sign of a NaN second operand is not represented by SMT-LIB: taken as positive
+		set(mkIte(app(SBool, "fp.isNegative", y), fpNeg(fpAbs(x)), fpAbs(x)))
+	case "math.Max", "math.Min":
+		panic(engineErr(full + " is not modelled"))
+	case "unicode/utf8.DecodeRuneInString":
+		rs, ok := args[0].(StrV).runeLevel()
+		if !ok {
+			panic(engineErr("utf8.DecodeRuneInString on opaque text"))
+		}
+		if len(rs) == 0 {
+			set(Tuple{mkBV(0xFFFD, 32), mkBV(0, 64)})
+		} else {
+			set(Tuple{rs[0], utf8LenTerm(rs[0])})
+		}
+	case "unicode/utf8.RuneLen":
+		set(utf8LenTerm(args[0].(Term)))
+	case "unicode/utf8.RuneCountInString":
+		rs, ok := args[0].(StrV).runeLevel()
+		if !ok {
+			panic(engineErr("utf8.RuneCountInString on opaque text"))
+		}
+		set(mkBV(uint64(len(rs)), 64))
+	case "(*strings.Builder).Grow":
+		// capacity only
+	case "(*strings.Builder).WriteByte":
+		p := args[0].(Ptr)
+		b, okb := args[1].(Term).bvVal()
+		if !okb || b >= 0x80 {
+			panic(engineErr("Builder.WriteByte with a symbolic or non-ASCII byte"))
+		}
+		st.builders[p.id] = strCat(st.builders[p.id], strLit(string(rune(b))))
+		set(nilUnion())
+	case "(*strings.Builder).Len":
+		set(strByteLen(st.builders[args[0].(Ptr).id]))
 	case "sort.Strings":
 		sl := args[0].(SliceV)
 		elems := st.sliceElems(sl)
@@ -621,6 +728,12 @@ func (w *Worker) intrinsic(st *State, f *Frame, x ssa.Value, callee *ssa.Functio
 		}
 	case "strings.TrimSpace":
 		set(trimSpaceStr(args[0].(StrV)))
+	case "strings.TrimRight", "strings.TrimLeft", "strings.Trim":
+		cut, ok := args[1].(StrV).concrete()
+		if !ok {
+			panic(engineErr(full + " with a symbolic cutset"))
+		}
+		set(trimCutset(args[0].(StrV), cut, full != "strings.TrimRight", full != "strings.TrimLeft"))
 	case "(golang.org/x/text/unicode/norm.Form).String":
 		s := args[1].(StrV)
 		form, ok := args[0].(Term).intVal()
@@ -785,12 +898,22 @@ func (w *Worker) parseFloat(st *State, set func(Value), s StrV) {
 		minusD := mkAnd(is(rs[0], '-'), isD(rs[1]))
 		st.assume(mkEq(failed, mkNot(mkOr(dd, dDot, dotD, plusD, minusD))))
 	default:
-		if n <= 15 {
+		if n <= 19 {
 			all := make([]Term, n)
+			acc := mkBV(0, 64)
 			for i, r := range rs {
 				all[i] = isD(r)
+				d := bvBin("bvsub", bvResize(r, 64, false), mkBV('0', 64), false)
+				// acc*10 as shifts and adds (cheap to bit-blast); <= 19 digits fit in 64 bits unsigned
+				acc = bvBin("bvadd", bvBin("bvadd", bvBin("bvshl", acc, mkBV(3, 64), false), bvBin("bvshl", acc, mkBV(1, 64), false), false), d, false)
 			}
 			st.assume(mkImplies(mkAnd(all...), mkNot(failed)))
+			if st.opts["parsefloat-exact-integers"] {
+				// the correctly rounded value of an integer numeral: round-to-nearest-even of its
+				// exact (unsigned 64-bit) value — the documented contract of strconv.ParseFloat
+				exact := Term{S: "((_ to_fp_unsigned 11 53) RNE " + acc.S + ")", Sort: SFP, Syms: acc.Syms}
+				st.assume(mkImplies(mkAnd(all...), mkEq(val, exact)))
+			}
 		}
 	}
 	errU := w.mkErr(st, strLit("strconv.ParseFloat: parsing: invalid syntax or out of range"))
@@ -868,4 +991,78 @@ func trimSpaceStr(s StrV) StrV {
 		return core
 	}
 	return atom(app(STxt, "txtTrim", core.toTxt()))
+}
+
+// trimCutset: strings.Trim/TrimLeft/TrimRight with a concrete cutset. Concrete characters at
+// the trimmed ends are removed for real; if an opaque segment is then exposed at a trimmed
+// end the remainder is wrapped in an uninterpreted function named after the operation.
+func trimCutset(s StrV, cut string, left, right bool) StrV {
+	segs := append([]Seg{}, s.Segs...)
+	if left {
+		for len(segs) > 0 && segs[0].K == SegLit {
+			t := strings.TrimLeft(segs[0].Lit, cut)
+			if t == "" {
+				segs = segs[1:]
+				continue
+			}
+			segs[0] = Seg{K: SegLit, Lit: t}
+			break
+		}
+	}
+	if right {
+		for len(segs) > 0 && segs[len(segs)-1].K == SegLit {
+			t := strings.TrimRight(segs[len(segs)-1].Lit, cut)
+			if t == "" {
+				segs = segs[:len(segs)-1]
+				continue
+			}
+			segs[len(segs)-1] = Seg{K: SegLit, Lit: t}
+			break
+		}
+	}
+	core := StrV{segs}
+	if len(segs) == 0 {
+		return core
+	}
+	exposed := (left && segs[0].K != SegLit) || (right && segs[len(segs)-1].K != SegLit)
+	if !exposed {
+		return core
+	}
+	name := fmt.Sprintf("txtTrimSet_%x_%v_%v", cut, left, right)
+	declareUF(name, fmt.Sprintf("(declare-fun %s (Txt) Txt)", name))
+	return atom(app(STxt, name, core.toTxt()))
+}
+
+// utf8LenTerm: the number of bytes of the UTF-8 encoding of a (valid) code point.
+func utf8LenTerm(r Term) Term {
+	if v, ok := r.intVal(); ok {
+		switch {
+		case v < 0x80:
+			return mkBV(1, 64)
+		case v < 0x800:
+			return mkBV(2, 64)
+		case v < 0x10000:
+			return mkBV(3, 64)
+		}
+		return mkBV(4, 64)
+	}
+	return mkIte(bvCmp("bvult", r, mkBV(0x80, 32)), mkBV(1, 64),
+		mkIte(bvCmp("bvult", r, mkBV(0x800, 32)), mkBV(2, 64),
+			mkIte(bvCmp("bvult", r, mkBV(0x10000, 32)), mkBV(3, 64), mkBV(4, 64))))
+}
+
+// strByteLen: len(s) for a text without opaque atoms.
+func strByteLen(s StrV) Term {
+	n := mkBV(0, 64)
+	for _, g := range s.Segs {
+		switch g.K {
+		case SegLit:
+			n = bvBin("bvadd", n, mkBV(uint64(len(g.Lit)), 64), false)
+		case SegRune:
+			n = bvBin("bvadd", n, utf8LenTerm(g.T), false)
+		default:
+			panic(engineErr("len of a text with opaque parts"))
+		}
+	}
+	return n
 }
